@@ -1,5 +1,6 @@
 import OjgVerif.Props.C01
 import OjgVerif.Json.RefineTree
+import OjgVerif.Json.NumConv
 /-! # C02 — structure clause as a theorem
 
 For every byte string the tree returned over the regenerated oj / gen tables is the tree of the text:
@@ -20,6 +21,18 @@ theorem oj_structure (bs : Bytes) :
 theorem gen_structure (bs : Bytes) :
     toOpt (run genTables cfg1 [bs]) = ((parseTextS (Spec.stripBOM bs)).mapVal (JV.mapNum numConv)).result := by
   rw [C01.gen_is_reference]; exact run_structure bs
+
+/-- the conversion at the number leaves of `oj_structure`, for plain integer literals
+`-? [1-9][0-9]*` whose magnitude fits int64: the int64 equal to the literal (always so, as the
+property demands; for the parsers' fast loop see known finding C02-int19) -/
+theorem plain_int_leaf (d : UInt8) (ds : Bytes) (hd : Spec.isDigit19 d = true)
+    (hds : ∀ x ∈ ds, Spec.isDigit x = true) (hfit : natOf (d :: ds) ≤ 9223372036854775807) :
+    numConv (d :: ds) = .int (natOf (d :: ds)) ∧ numConv (45 :: d :: ds) = .int (-(natOf (d :: ds) : Int)) :=
+  ⟨numConv_nat d ds hd hds hfit, numConv_neg d ds hd hds hfit⟩
+
+/-- non-vacuity: `9223372036854775807` and `-9223372036854775807` -/
+example : numConv [57,50,50,51,51,55,50,48,51,54,56,53,52,55,55,53,56,48,55] = .int 9223372036854775807 :=
+  (plain_int_leaf 57 [50,50,51,51,55,50,48,51,54,56,53,52,55,55,53,56,48,55] (by decide) (by decide) (by decide)).1
 
 /-- non-vacuity: on `{"b":[1,"x"],"b":2}` the grammar denotes one member, the last duplicate -/
 example : parseTextS [123,34,98,34,58,91,49,44,34,120,34,93,44,34,98,34,58,50,125] =
